@@ -951,10 +951,27 @@ func c03JudgeDirX(w []c03Step, seed int64, dir string, ackedOp int, what string,
 				}
 			}
 		}
-		if onlyDeletedBack {
+		missing := false
+		for n, m := range want {
+			for t := range m {
+				if _, ok := got2[n][t]; !ok {
+					missing = true
+				}
+			}
+		}
+		if durable && !missing {
+			// C04: what the damaged log no longer deletes (a lost tombstone record) or what an unreplayed log still holds may
+			// show up at the next restart; it is checked against the upper bound below
+			a = b
+		}
+		if a == b {
+			// fall through to the value check
+		} else if onlyDeletedBack {
 			return "deleted-sample-replayed-from-wal", fmt.Sprintf("%s: after appending (t=%d) to the recovered database and a clean restart samples deleted by an acknowledged Delete are back:\n  %s\nexpected\n  %s", what, newT, c03Fmt(got2), c03Fmt(want)), got
 		}
-		return "post-recovery-contents-changed", fmt.Sprintf("%s: after appending (t=%d) to the recovered database and a clean restart the contents are\n  %s\nexpected\n  %s", what, newT, c03Fmt(got2), c03Fmt(want)), got
+		if a != b {
+			return "post-recovery-contents-changed", fmt.Sprintf("%s: after appending (t=%d) to the recovered database and a clean restart the contents are\n  %s\nexpected\n  %s", what, newT, c03Fmt(got2), c03Fmt(want)), got
+		}
 	}
 	for _, g2 := range []c03Contents{got2, got2C} {
 		for n, m := range g2 {
